@@ -74,7 +74,7 @@ def run_msm(ident, k, g, option, res, labelmsm_value=None, checks=('msm', 'field
         return ch(name, w, what)
     d = make_directed(ident, k, g)
     eng = sym.Engine(max_paths=64, conc_limit=32, conc_small=0)
-    eng.query_timeout_ms = 120000
+    eng.query_timeout_ms = 240000
     label = option if labelmsm_value is None else labelmsm_value
 
     def fn():
